@@ -39,6 +39,8 @@ type vfSrvCfg struct {
 	AllocOptRS RequestServerOption
 	// PacketCount: the server's packet counter before Serve starts (a session that has already handled that many packets)
 	PacketCount uint32
+	// BeforeServe, if set, runs after the server value has been constructed and before Serve is started
+	BeforeServe func()
 }
 
 func (c vfSrvCfg) String() string {
@@ -82,6 +84,9 @@ func vfServe(cfg vfSrvCfg, e *vfEnd) (*vfSrv, error) {
 		if cfg.PacketCount != 0 {
 			srv.pktMgr.packetCount = cfg.PacketCount
 		}
+		if cfg.BeforeServe != nil {
+			cfg.BeforeServe()
+		}
 		go func() {
 			s.err = srv.Serve()
 			close(s.done)
@@ -103,6 +108,9 @@ func vfServe(cfg vfSrvCfg, e *vfEnd) (*vfSrv, error) {
 		s.rs = srv
 		if cfg.PacketCount != 0 {
 			srv.pktMgr.packetCount = cfg.PacketCount
+		}
+		if cfg.BeforeServe != nil {
+			cfg.BeforeServe()
 		}
 		go func() {
 			s.err = srv.Serve()
